@@ -377,6 +377,59 @@ def run(ctx, config='rel-all'):
             else:
                 ctx.violation('O8', fn, 'reserve-amount', '%s must reserve exactly %s additional elements; it reserves %s' % (fn, show(want), [show(e.args[-1])[:60] for e in rs]), bs[0].get('span'))
         ctx.floor('O8', n8, 6, 'growing primitives checked for their reserve amount')
+    # ---- O12 (requirement side of O8, no table): in *every* method of the collections that reserves in its own frame and then raises
+    # the length in its own frame, the amount reserved is the amount the length grows by - more makes an insertion that fits move the
+    # buffer (or take a new chunk), less is C19's business
+    if config != 'rel-default':
+        def _has_call(b, names):
+            for bl in b['blocks']:
+                t = bl['term']
+                if t['k'] == 'call':
+                    pth = (t['callee'].get('resolved') or {}).get('path') or t['callee'].get('path') or ''
+                    if pth.split('::')[-1] in names:
+                        return True
+            return False
+
+        def _len_assign(b):
+            return any(st.get('k') == 'assign' and any(e['k'] == 'field' and e.get('name') == 'len' for e in st['place']['proj']) for bl in b['blocks'] for st in bl['stmts'])
+        n12 = 0
+        for b in db.fn_bodies():
+            if b['kind'] != 'assoc_fn' or not (b.get('span') or '').startswith('src/collections/'):
+                continue
+            if not _has_call(b, ('reserve', 'reserve_exact')) or not (_has_call(b, ('set_len',)) or _len_assign(b)):
+                continue
+            J, r = arena.run_fn(ctx, b['id'], config)
+            rs = [e for e in r.events if e.kind == 'call' and e.is_own() and (e.callee or '').split('::')[-1] in ('reserve', 'reserve_exact')]
+            sl = [e for e in r.events if e.is_own() and ((e.kind == 'call' and (e.callee or '').endswith('::set_len')) or (e.kind == 'store' and e.lv and e.lv[0] == 'fld' and e.lv[2].endswith('.len')))]
+            for e in sl:
+                val = e.args[1] if e.kind == 'call' else e.val
+                before = [x for x in rs if r.events.index(x) < r.events.index(e)]
+                if not before or not isinstance(val, tuple):
+                    continue
+                # val = load(len) + k
+                parts = lin(val)
+                if parts is None:
+                    continue
+                terms_, const = parts
+                lens = [t for t, c in terms_.items() if c == 1 and isinstance(t, tuple) and t[0] == 'load' and t[1][0] == 'fld' and t[1][2].endswith('.len')]
+                if len(lens) != 1:
+                    continue
+                rest = dict(terms_)
+                del rest[lens[0]]
+                n12 += 1
+                amt = before[-1].args[-1]
+                pa = lin(amt)
+                fn = arena.short(b['id'])
+                if pa is not None and pa[1] == const and pa[0] == rest:
+                    ctx.ok('O12', '%s reserves exactly what it adds to the length (%s)' % (fn, show(amt)[:60]), 'linear form of reserve amount == length increase')
+                else:
+                    P = prover.Prover(J, e.state.facts, use_J=False)
+                    k = app('sub', val, lens[0])
+                    if P.eq(amt, k):
+                        ctx.ok('O12', '%s reserves exactly what it adds to the length (%s)' % (fn, show(amt)[:60]), 'prover')
+                    else:
+                        ctx.violation('O12', fn, 'reserve-vs-growth', '%s reserves %s additional elements and then raises the length by %s: a collection whose spare capacity would have held the new elements is reallocated (or the reservation is too small)' % (fn, show(amt)[:60], show(simplify(k))[:80]), e.span)
+        ctx.floor('O12', n12, 4, 'own-frame (reserve, length increase) pairs')
     # ---- O9 constructor glue: the convenience constructors hand their capacity on unchanged (new / try_new / default with 0) and a
     # fresh arena has no limit; min_align() reports the const parameter
     def bump_fn(name):
